@@ -8,9 +8,10 @@
      `Value`, so an `Item::Table` below an inline table (reachable only through IndexMut on an
      inline-table parent; DESIGN.md F13, printed as nothing) is excluded by construction;
    - `Item::None` is not a constructed item (Table::insert accepts it and it prints as nothing);
-   - the formatting switches Table::set_implicit / set_dotted / set_position,
-     InlineTable::set_dotted, Array::set_trailing*, Decor setters and the *_formatted inserts
-     are not construction and are left out: every table is `Table::new()` + inserts. *)
+   - Table::set_implicit(true) is covered (`im` in BI_table / BI_aot: it is what toml's DocumentFormatter calls on
+     every non-empty table), provided the table still prints something below itself (`item_prints`);
+   - the other formatting switches (Table::set_dotted / set_position, InlineTable::set_dotted,
+     Array::set_trailing*, Decor setters, the *_formatted inserts) are not construction and are left out. *)
 From TV Require Import Base.Prelude Base.Utf8 Base.Winnow Gen.Consts.
 From TV Require Import Model.Datetime Model.Numbers Model.Tree Model.Parse Model.Write.
 
